@@ -20,6 +20,7 @@ import (
 	"mellium.im/xmpp/stanza"
 	"mellium.im/xmpp/stream"
 	"mellium.im/xmpp/websocket"
+	"verifharness/hx"
 )
 
 // ---- scenario language (mirrors `kind` of coq/C10/Model.v) ----
@@ -114,21 +115,22 @@ func readyNegotiator(ns string) xmpp.Negotiator {
 }
 
 type rig struct {
-	s       *xmpp.Session
-	sess    net.Conn // the session's end
-	peer    net.Conn
-	mu      sync.Mutex
-	out     bytes.Buffer
-	capDone chan struct{}
-	peerQ   chan []byte
-	peerWG  sync.WaitGroup
-	cancel  context.CancelFunc
+	s        *xmpp.Session
+	sess     net.Conn // the session's end
+	peer     net.Conn
+	mu       sync.Mutex
+	out      bytes.Buffer
+	capDone  chan struct{}
+	peerQ    chan []byte
+	peerWG   sync.WaitGroup
+	cancel   context.CancelFunc
+	lockLeft bool // finish: the output lock could not be taken
 
 	// connection writes of the session
-	watch        atomic.Bool   // ask for the state mutex at every write
+	watch        atomic.Bool // ask for the state mutex at every write
 	wmu          sync.Mutex
-	lockedWrites []uint64      // goroutines that entered a connection write while the state mutex was locked
-	writeEntered chan bool     // (stall probes) a write was entered; the value: state mutex locked
+	lockedWrites []uint64  // goroutines that entered a connection write while the state mutex was locked
+	writeEntered chan bool // (stall probes) a write was entered; the value: state mutex locked
 
 	// the peer's reading can be suspended (stall probes)
 	gate   sync.Mutex
@@ -267,7 +269,9 @@ func newRig(dlsup, recv, ws bool) (*rig, error) {
 func (r *rig) finish() (wire, residual []byte) {
 	r.sess.SetWriteDeadline(time.Now().Add(10 * time.Second))
 	r.sess.Write([]byte(mark))
-	r.s.VerifDrainOutput()
+	// every actor has returned (or waits for input): the output lock must be
+	// free; a drain that cannot get it means that somebody returned holding it
+	r.lockLeft = !hx.WithTimeout(watchdog/2, func() { r.s.VerifDrainOutput() })
 	r.close()
 	all := r.out.Bytes()
 	if i := bytes.Index(all, []byte(startMark)); i >= 0 {
